@@ -105,14 +105,17 @@ structure Regs where
   obp1 : Nat
 deriving Repr, DecidableEq
 
-/-- the harness' set-up sequence: `new`, `set_lcd_control`, `set_bgp`, `set_obj_palette(0/1)`,
-`set_scroll_x/y`, `set_window_x/y` -/
-def Cfg.ofRegs (r : Regs) : Cfg :=
-  let c := Cfg.new.setLcdControl r.lcdc
+/-- the harness' register set-up on an existing `VideoState`: `set_lcd_control`, `set_bgp`,
+`set_obj_palette(0/1)`, `set_scroll_x/y`, `set_window_x/y` -/
+def Cfg.applyRegs (c : Cfg) (r : Regs) : Cfg :=
+  let c := c.setLcdControl r.lcdc
   let c := c.setBgp r.bgp
   let c := c.setObjPalette 0 r.obp0
   let c := c.setObjPalette 1 r.obp1
   { c with scrollX := r.scx, scrollY := r.scy, windowX := r.wx, windowY := r.wy }
+
+/-- `new` followed by the set-up sequence -/
+def Cfg.ofRegs (r : Regs) : Cfg := Cfg.new.applyRegs r
 
 /-! ### tile fetches -/
 
@@ -395,8 +398,19 @@ def runTicks (vram oam : Array Nat) : Nat → State → Except Panic State
     runTicks vram oam n s
 
 /-- the frame the harness observes: power-on, 4560 clocks to line 0, 144 × 456 clocks to VBlank -/
+def renderFirst (r : Regs) (vram oam : Array Nat) : Except Panic State :=
+  runTicks vram oam (1140 + 144 * 114) (powerOn (Cfg.ofRegs r))
+
 def renderFrame (r : Regs) (vram oam : Array Nat) : Except Panic (Array Nat) := do
-  let s ← runTicks vram oam (1140 + 144 * 114) (powerOn (Cfg.ofRegs r))
+  let s ← renderFirst r vram oam
   pure s.visible
+
+/-- the next frame on the same machine (stream `c15.seq`): `vbTicks` ticks of the VBlank with the
+old memories, then the setters are called and VRAM/OAM replaced, then the rest of the VBlank and
+the 144 lines.  Nothing of the state is re-initialised. -/
+def renderNext (s : State) (r : Regs) (vramOld oamOld vram oam : Array Nat) (vbTicks : Nat) : Except Panic State := do
+  let s ← runTicks vramOld oamOld vbTicks s
+  let s := { s with cfg := s.cfg.applyRegs r }
+  runTicks vram oam (1140 - vbTicks + 144 * 114) s
 
 end GbVerif.Ppu
